@@ -106,7 +106,10 @@ def impl(c):
     log = [{"id": i, "parents": list(ps)} for i, ps in c["log"]]
     try:
         out = [r["id"] for r in toposort(log)]
-        return {"ok": out}
+        # the same log as one-shot iterables (a generator, an iterator), as Storage.revision_log() yields it
+        out_gen = [r["id"] for r in toposort(r for r in log)]
+        out_it = [r["id"] for r in toposort(iter(tuple(log)))]
+        return {"ok": out, "ok_generator": out_gen, "ok_iterator": out_it}
     except Exception as e:
         from .core import exc_class
         return {"error": exc_class(e)}
@@ -139,6 +142,9 @@ def oracle(c, ires, mres):
         return "toposort raised " + ires.get("error", "?")
     out = ires["ok"]
     log = c["log"]
+    if ires.get("ok_generator") != out or ires.get("ok_iterator") != out:
+        return "the result depends on whether the log is a list or a one-shot iterable: %s / %s / %s" % (
+            out[:8], ires.get("ok_generator", [])[:8], ires.get("ok_iterator", [])[:8])
     if sorted(out) != sorted(i for i, _ in log):
         return "output is not a permutation of the log: each revision must appear exactly once"
     pos = {i: k for k, i in enumerate(out)}
